@@ -1,0 +1,377 @@
+//! Verification hooks for properties C28 / C29 / C35 (compiled only with `--cfg libp2p_verif`).
+//!
+//! Child module of `behaviour`: [`VerifNode`] owns a [`Behaviour`] and drives it through the
+//! entry points the swarm and the crate's own tests use. Every method only *calls* existing
+//! code; nothing here re-implements behaviour logic.
+
+use std::collections::BTreeMap;
+
+use libp2p_core::{ConnectedPoint, Endpoint, Multiaddr, transport::PortUse};
+use libp2p_identity::PeerId;
+use libp2p_swarm::{
+    ConnectionId, NetworkBehaviour, NotifyHandler, ToSwarm,
+    behaviour::{ConnectionClosed, ConnectionEstablished, FromSwarm},
+};
+
+use super::{Behaviour, Event, MessageAuthenticity};
+pub use crate::types::PeerKind;
+use crate::{
+    config::Config,
+    error::{PublishError, SubscriptionError},
+    handler::{HandlerEvent, HandlerIn},
+    peer_score::{PeerScoreParams, PeerScoreThresholds},
+    queue::Queue,
+    subscription_filter::AllowAllSubscriptionFilter,
+    topic::TopicHash,
+    transform::IdentityTransform,
+    types::{
+        ControlAction, Graft, MessageId, PeerInfo, Prune, RawMessage, RpcIn, RpcOut, Subscription,
+        SubscriptionAction, SubscriptionOpts,
+    },
+};
+
+/// An RPC the behaviour queued for a peer's connection handler, reduced to what the checks read.
+#[derive(Debug, Clone, PartialEq, Eq)]
+pub enum Sent {
+    Subscribe(TopicHash),
+    SubscribeMany(Vec<TopicHash>),
+    Unsubscribe(TopicHash),
+    Graft(TopicHash),
+    Prune {
+        topic: TopicHash,
+        backoff: Option<u64>,
+        px: Vec<Option<PeerId>>,
+    },
+    Publish {
+        topic: TopicHash,
+        data: Vec<u8>,
+    },
+    /// anything else (IHAVE, IWANT, IDONTWANT, extensions …), by variant name
+    Other(&'static str),
+}
+
+/// An entry of the behaviour's `events` queue, reduced to what the checks read.
+#[derive(Debug, Clone, PartialEq, Eq)]
+pub enum Emitted {
+    JoinedMesh { peer: PeerId, connection: ConnectionId },
+    LeftMesh { peer: PeerId, connection: ConnectionId },
+    /// a `NotifyHandler` that is not addressed to exactly one connection
+    NotifyOther { peer: PeerId, joined: bool },
+    Subscribed { peer: PeerId, topic: TopicHash },
+    Unsubscribed { peer: PeerId, topic: TopicHash },
+    Dial(Option<PeerId>),
+    Other(&'static str),
+}
+
+/// One incoming PRUNE: topic, peer-exchange ids, backoff in seconds.
+pub type PruneIn = (TopicHash, Vec<PeerId>, Option<u64>);
+
+pub struct VerifNode {
+    pub gs: Behaviour<IdentityTransform, AllowAllSubscriptionFilter>,
+    /// receiving side of each peer's handler queue
+    queues: BTreeMap<PeerId, Queue>,
+}
+
+impl VerifNode {
+    /// `Behaviour::new` with `MessageAuthenticity::Signed` (fresh ed25519 key) or `Anonymous`.
+    pub fn new(config: Config, signed: bool) -> Result<Self, &'static str> {
+        let auth = if signed {
+            MessageAuthenticity::Signed(libp2p_identity::Keypair::generate_ed25519())
+        } else {
+            MessageAuthenticity::Anonymous
+        };
+        Ok(VerifNode {
+            gs: Behaviour::new(auth, config)?,
+            queues: BTreeMap::new(),
+        })
+    }
+
+    pub fn with_peer_score(
+        &mut self,
+        params: PeerScoreParams,
+        thresholds: PeerScoreThresholds,
+    ) -> Result<(), String> {
+        self.gs.with_peer_score(params, thresholds)
+    }
+
+    /// What the swarm does when a connection is established: `handle_established_*`, then
+    /// `FromSwarm::ConnectionEstablished`. The handler's queue (receiving side) is kept.
+    pub fn connect(
+        &mut self,
+        peer: PeerId,
+        connection: usize,
+        outbound: bool,
+        other_established: usize,
+    ) {
+        let connection_id = ConnectionId::new_unchecked(connection);
+        let address = Multiaddr::empty();
+        let endpoint = if outbound {
+            let _handler = self.gs.handle_established_outbound_connection(
+                connection_id,
+                peer,
+                &address,
+                Endpoint::Dialer,
+                PortUse::Reuse,
+            );
+            ConnectedPoint::Dialer {
+                address,
+                role_override: Endpoint::Dialer,
+                port_use: PortUse::Reuse,
+            }
+        } else {
+            let _handler =
+                self.gs
+                    .handle_established_inbound_connection(connection_id, peer, &address, &address);
+            ConnectedPoint::Listener {
+                local_addr: Multiaddr::empty(),
+                send_back_addr: address,
+            }
+        };
+        if let Some(details) = self.gs.connected_peers.get(&peer) {
+            self.queues
+                .entry(peer)
+                .or_insert_with(|| details.messages.clone());
+        }
+        self.gs
+            .on_swarm_event(FromSwarm::ConnectionEstablished(ConnectionEstablished {
+                peer_id: peer,
+                connection_id,
+                endpoint: &endpoint,
+                failed_addresses: &[],
+                other_established,
+            }));
+    }
+
+    /// The handler's report of the negotiated protocol.
+    pub fn peer_kind(&mut self, peer: PeerId, connection: usize, kind: PeerKind) {
+        self.gs.on_connection_handler_event(
+            peer,
+            ConnectionId::new_unchecked(connection),
+            HandlerEvent::PeerKind(kind),
+        );
+    }
+
+    /// `FromSwarm::ConnectionClosed` for one connection.
+    pub fn disconnect(&mut self, peer: PeerId, connection: usize, remaining_established: usize) {
+        let endpoint = ConnectedPoint::Dialer {
+            address: Multiaddr::empty(),
+            role_override: Endpoint::Dialer,
+            port_use: PortUse::Reuse,
+        };
+        self.gs
+            .on_swarm_event(FromSwarm::ConnectionClosed(ConnectionClosed {
+                peer_id: peer,
+                connection_id: ConnectionId::new_unchecked(connection),
+                endpoint: &endpoint,
+                remaining_established,
+                cause: None,
+            }));
+        if remaining_established == 0 {
+            self.queues.remove(&peer);
+        }
+    }
+
+    /// One received RPC (`HandlerEvent::Message`): subscriptions `(subscribe?, topic)`, GRAFTs,
+    /// PRUNEs and messages, in this order inside the RPC.
+    pub fn recv_rpc(
+        &mut self,
+        peer: PeerId,
+        connection: usize,
+        subscriptions: Vec<(bool, TopicHash)>,
+        grafts: Vec<TopicHash>,
+        prunes: Vec<PruneIn>,
+        messages: Vec<RawMessage>,
+    ) {
+        let mut control_msgs = Vec::new();
+        for topic_hash in grafts {
+            control_msgs.push(ControlAction::Graft(Graft { topic_hash }));
+        }
+        for (topic_hash, px, backoff) in prunes {
+            control_msgs.push(ControlAction::Prune(Prune {
+                topic_hash,
+                peers: px
+                    .into_iter()
+                    .map(|p| PeerInfo { peer_id: Some(p) })
+                    .collect(),
+                backoff,
+            }));
+        }
+        let rpc = RpcIn {
+            messages,
+            subscriptions: subscriptions
+                .into_iter()
+                .map(|(sub, topic_hash)| Subscription {
+                    action: if sub {
+                        SubscriptionAction::Subscribe
+                    } else {
+                        SubscriptionAction::Unsubscribe
+                    },
+                    topic_hash,
+                    options: SubscriptionOpts {
+                        requests_partial: false,
+                        supports_partial: false,
+                    },
+                })
+                .collect(),
+            control_msgs,
+            #[cfg(feature = "partial-messages")]
+            partial_message: None,
+        };
+        self.gs.on_connection_handler_event(
+            peer,
+            ConnectionId::new_unchecked(connection),
+            HandlerEvent::Message {
+                rpc,
+                invalid_messages: Vec::new(),
+            },
+        );
+    }
+
+    pub fn subscribe(&mut self, topic: &crate::IdentTopic) -> Result<bool, SubscriptionError> {
+        self.gs.subscribe(topic)
+    }
+
+    pub fn unsubscribe(&mut self, topic: &crate::IdentTopic) -> bool {
+        self.gs.unsubscribe(topic)
+    }
+
+    pub fn publish(&mut self, topic: TopicHash, data: Vec<u8>) -> Result<MessageId, PublishError> {
+        self.gs.publish(topic, data)
+    }
+
+    /// private `Behaviour::heartbeat`
+    pub fn heartbeat(&mut self) {
+        self.gs.heartbeat()
+    }
+
+    pub fn mesh_peers(&self, topic: &TopicHash) -> Vec<PeerId> {
+        self.gs.mesh_peers(topic).copied().collect()
+    }
+
+    pub fn is_subscribed(&self, topic: &TopicHash) -> bool {
+        self.gs.mesh.contains_key(topic)
+    }
+
+    /// private `fanout` map: `None` when the topic has no entry
+    pub fn fanout(&self, topic: &TopicHash) -> Option<Vec<PeerId>> {
+        self.gs
+            .fanout
+            .get(topic)
+            .map(|s| s.iter().copied().collect())
+    }
+
+    /// `connected_peers`: (peer, kind, outbound, connections, topics)
+    pub fn peers(&self) -> Vec<(PeerId, PeerKind, bool, Vec<ConnectionId>, Vec<TopicHash>)> {
+        let mut v: Vec<_> = self
+            .gs
+            .connected_peers
+            .iter()
+            .map(|(p, d)| {
+                (
+                    *p,
+                    d.kind,
+                    d.outbound,
+                    d.connections.clone(),
+                    d.topics.iter().cloned().collect::<Vec<_>>(),
+                )
+            })
+            .collect();
+        v.sort_by_key(|e| e.0);
+        v
+    }
+
+    /// `BackoffStorage::is_backoff_with_slack`
+    pub fn is_backoff_with_slack(&self, topic: &TopicHash, peer: &PeerId) -> bool {
+        self.gs.backoffs.is_backoff_with_slack(topic, peer)
+    }
+
+    /// the test `handle_graft` applies: `get_backoff_time(..) > now`
+    pub fn is_backoff_now(&self, topic: &TopicHash, peer: &PeerId) -> bool {
+        self.gs
+            .backoffs
+            .get_backoff_time(topic, peer)
+            .is_some_and(|t| t > web_time::Instant::now())
+    }
+
+    /// Everything queued for `peer`'s handler since the last call.
+    pub fn drain_rpcs(&mut self, peer: &PeerId) -> Vec<Sent> {
+        let mut out = Vec::new();
+        // `Queue::poll_pop` with a no-op waker: `Pending` = the queue is empty
+        let mut cx = std::task::Context::from_waker(std::task::Waker::noop());
+        if let Some(q) = self.queues.get_mut(peer) {
+            while let std::task::Poll::Ready(rpc) = q.poll_pop(&mut cx) {
+                out.push(match rpc {
+                    RpcOut::Subscribe { topic, .. } => Sent::Subscribe(topic),
+                    RpcOut::SubscribeMany(ts) => {
+                        Sent::SubscribeMany(ts.into_iter().map(|t| t.0).collect())
+                    }
+                    RpcOut::Unsubscribe(t) => Sent::Unsubscribe(t),
+                    RpcOut::Graft(g) => Sent::Graft(g.topic_hash),
+                    RpcOut::Prune(p) => Sent::Prune {
+                        topic: p.topic_hash,
+                        backoff: p.backoff,
+                        px: p.peers.into_iter().map(|i| i.peer_id).collect(),
+                    },
+                    RpcOut::Publish { message, .. } => Sent::Publish {
+                        topic: message.topic,
+                        data: message.data,
+                    },
+                    RpcOut::IHave(_) => Sent::Other("IHave"),
+                    RpcOut::IWant(_) => Sent::Other("IWant"),
+                    RpcOut::IDontWant(_) => Sent::Other("IDontWant"),
+                    RpcOut::Extensions(_) => Sent::Other("Extensions"),
+                    RpcOut::TestExtension => Sent::Other("TestExtension"),
+                    #[cfg(feature = "partial-messages")]
+                    RpcOut::PartialMessage(_) => Sent::Other("PartialMessage"),
+                });
+            }
+        }
+        out
+    }
+
+    /// The behaviour's `events` queue, emptied.
+    pub fn drain_events(&mut self) -> Vec<Emitted> {
+        self.gs
+            .events
+            .drain(..)
+            .map(|e| match e {
+                ToSwarm::NotifyHandler {
+                    peer_id,
+                    handler,
+                    event,
+                } => {
+                    let joined = matches!(event, HandlerIn::JoinedMesh);
+                    match handler {
+                        NotifyHandler::One(connection) if joined => Emitted::JoinedMesh {
+                            peer: peer_id,
+                            connection,
+                        },
+                        NotifyHandler::One(connection) => Emitted::LeftMesh {
+                            peer: peer_id,
+                            connection,
+                        },
+                        NotifyHandler::Any => Emitted::NotifyOther {
+                            peer: peer_id,
+                            joined,
+                        },
+                    }
+                }
+                ToSwarm::GenerateEvent(Event::Subscribed { peer_id, topic, .. }) => {
+                    Emitted::Subscribed {
+                        peer: peer_id,
+                        topic,
+                    }
+                }
+                ToSwarm::GenerateEvent(Event::Unsubscribed { peer_id, topic }) => {
+                    Emitted::Unsubscribed {
+                        peer: peer_id,
+                        topic,
+                    }
+                }
+                ToSwarm::GenerateEvent(_) => Emitted::Other("GenerateEvent"),
+                ToSwarm::Dial { opts } => Emitted::Dial(opts.get_peer_id()),
+                _ => Emitted::Other("ToSwarm"),
+            })
+            .collect()
+    }
+}
